@@ -36,6 +36,18 @@ type Ctx struct {
 	nontrivial bool
 	notes      []string
 	s          *stats
+	ks         *KnownSet
+}
+
+// KnownActive reports whether a known-finding class is listed as unrepaired (so the check may
+// skip the step that would hit it, counting the exclusion with KnownExcluded).
+func (x *Ctx) KnownActive(key string) bool { return x != nil && x.ks.Active(key) }
+
+// KnownExcluded counts one step skipped because it would hit an active known class.
+func (x *Ctx) KnownExcluded(key string) {
+	if x != nil {
+		x.ks.Excluded(key)
+	}
 }
 
 // Label tags the evaluation (histogram in the evidence file).
@@ -171,6 +183,9 @@ type knownEntry struct {
 	Status   string `json:"status"` // "known" | "fixed"
 	What     string `json:"what"`
 	Commit   string `json:"commit,omitempty"`
+	// AlsoExcludedIn lists other properties whose generators construct around this class (their
+	// harnesses share the code path); the finding itself is demonstrated under Property.
+	AlsoExcludedIn []string `json:"also_excluded_in,omitempty"`
 }
 
 func loadKnown(property string) map[string]knownEntry {
@@ -192,6 +207,12 @@ func loadKnown(property string) map[string]knownEntry {
 	for _, e := range f.Findings {
 		if e.Property == property {
 			out[e.Key] = e
+			continue
+		}
+		for _, p := range e.AlsoExcludedIn {
+			if p == property {
+				out[e.Key] = e
+			}
 		}
 	}
 	return out
@@ -384,7 +405,7 @@ func Run[C any](t *testing.T, spec Spec[C]) {
 			if err != nil {
 				t.Fatalf("replay: %v", err)
 			}
-			x := &Ctx{s: s}
+			x := &Ctx{s: s, ks: ks}
 			s.Replays++
 			if err := safeCheck(x, c); err != nil {
 				report(c, x, err, p)
@@ -411,7 +432,7 @@ func Run[C any](t *testing.T, spec Spec[C]) {
 			if err != nil {
 				t.Fatalf("replay: %v", err)
 			}
-			x := &Ctx{s: s}
+			x := &Ctx{s: s, ks: ks}
 			s.Replays++
 			err = safeCheck(x, c)
 			base := filepath.Base(p)
@@ -482,7 +503,7 @@ func Run[C any](t *testing.T, spec Spec[C]) {
 	}()
 	rapid.Check(t, func(rt *rapid.T) {
 		c := spec.Gen(rt, ks)
-		x := &Ctx{s: s}
+		x := &Ctx{s: s, ks: ks}
 		err := safeCheck(x, c)
 		if err != nil {
 			if k := matchKnown(c); k != "" {
